@@ -29,6 +29,17 @@ var Check = &ev.Check{
 		"(b) adversarial names: every name position (file/package, struct, field, enum, enum item, typedef, constant, service, function, argument, exception field, union member; 12) x every hostile identifier (Go keywords and predeclared names, initialisms, SCREAMING_CASE, leading/trailing/double underscores, names of generated methods and helper shapes, names of packages the templates import; ~85), " +
 		"every pair of colliding spellings in one scope (foo_bar/fooBar/FooBar/FOO_BAR, x/get_x/is_set_x...) for fields, enum items, definitions and functions, and go.name/go.label/go.tag/go.type annotations from a menu incl. malformed ones. Oracle: never 'generated successfully but does not build'. " +
 		"A case is one program (one generated package); cases are distinct by construction; non-trivial = every case.",
+	Prepare: func(s *ev.S) error {
+		bin := filepath.Join(s.WorkDir, "thriftrw")
+		cmd := exec.Command("go", "build", "-o", bin, "go.uber.org/thriftrw")
+		cmd.Dir = s.Verif
+		cmd.Env = append(os.Environ(), "GOFLAGS=-mod=mod")
+		if out, err := cmd.CombinedOutput(); err != nil {
+			return fmt.Errorf("building thriftrw: %v: %s", err, out)
+		}
+		s.Args["thriftrw"] = bin
+		return nil
+	},
 	Run: run,
 	Budget: func(t string) time.Duration {
 		return map[string]time.Duration{"quick": 5 * time.Minute, "thorough": 25 * time.Minute}[t]
@@ -52,6 +63,9 @@ type cell struct {
 	Benign bool
 	// ThriftRoot relative to the cell's thrift dir ("" = the dir itself)
 	ThriftRoot string
+	// CLI: generate through the real thriftrw command WITHOUT --thrift-root (the
+	// command infers the root as the common ancestor of all files involved)
+	CLI bool
 }
 
 var hostile = []string{
@@ -112,7 +126,8 @@ func adversarial(quick bool) []cell {
 		out = append(out, cell{Name: fmt.Sprintf("adv%d", len(out)), Class: "name:included-file-rich:" + h, Root: "t.thrift",
 			Files: map[string]string{h + ".thrift": "struct S { 1: optional i32 a }\nenum E { A }\nexception X { 1: optional string m }\nconst i32 K = 5\n",
 				"t.thrift": strings.ReplaceAll("include \"./@.thrift\"\nstruct T { 1: optional @.E e = @.E.A; 2: optional map<string, @.S> m; 3: required @.S r; 4: optional i32 k = @.K; 5: optional set<@.E> es }\n"+
-					"const @.S C = {\"a\": 1}\nconst list<@.E> L = [@.E.A]\ntypedef @.S TS\nunion U { 1: @.S s; 2: @.E e }\nservice Sv { @.S f(1: @.S a, 2: list<@.E> b) throws (1: @.X x) }\n", "@", h)}})
+					"const @.S C = {\"a\": 1}\nconst list<@.E> L = [@.E.A]\ntypedef @.S TS\nunion U { 1: @.S s; 2: @.E e }\nservice Sv { @.S f(1: @.S a, 2: list<@.E> b) throws (1: @.X x) }\n"+
+					"enum LocalE { LA, LB }\nexception LocalX { 1: optional string m; 2: optional LocalE e }\n", "@", h)}})
 	}
 	// colliding spellings in one scope
 	groups := [][]string{{"foo_bar", "fooBar", "FooBar", "FOO_BAR", "Foo_Bar"}, {"x", "X", "get_x", "GetX", "is_set_x", "IsSetX"}, {"id", "ID", "Id", "iD"}, {"a_b", "a__b", "aB"}, {"url_id", "urlId", "URLID", "UrlID"}}
@@ -306,6 +321,16 @@ func benign(quick bool) []cell {
 				Files: map[string]string{"t.thrift": cross, "defs.thrift": prelude + fmt.Sprintf("const %s %s = %s\n", ty.typ, st, ty.val)}})
 		}
 	}
+	// an enum item where a plain integer is expected (the compiler accepts it; the generated
+	// Go has to convert the typed enum constant): constant, list element, map key and value,
+	// field default and argument default, same file and across an include
+	for _, it := range []string{"i8", "i16", "i32", "i64"} {
+		body := fmt.Sprintf("const %s X = St.NotFound\nconst list<%s> L = [St.Ok, 3]\nconst map<%s, %s> M = {St.Ok: St.NotFound}\nstruct H { 1: optional %s f = St.Ok; 2: required %s g = St.NotFound }\nservice Sv { void c(1: %s a = St.NotFound) }\n", it, it, it, it, it, it, it)
+		enum := "enum St { Ok = 0, NotFound = 44 }\n"
+		out = append(out, cell{Name: "enumint_" + it, Class: "enum-item-as-integer:" + it, Benign: true, Root: "t.thrift", Files: map[string]string{"t.thrift": enum + body}})
+		out = append(out, cell{Name: "enumintx_" + it, Class: "enum-item-as-integer-cross:" + it, Benign: true, Root: "t.thrift",
+			Files: map[string]string{"t.thrift": "include \"./codes.thrift\"\n" + strings.ReplaceAll(body, "St.", "codes.St."), "codes.thrift": enum}})
+	}
 	// enums: duplicate values in every position, negative and explicit/implicit mixes
 	for i, e := range []string{"A = 0, B = 0, C = 1", "A = 1, B = 1", "A, B = 0, C", "A = -1, B, C = 0, D = 0, E", "A = 5, B = 5, C = 5, D", "A = 2147483647, B = -2147483648, C = 2147483647, D = 0"} {
 		out = append(out, cell{Name: fmt.Sprintf("enumdup%d", i), Class: "enum-duplicate-values", Benign: true, Root: "t.thrift",
@@ -320,6 +345,20 @@ func benign(quick bool) []cell {
 	lay("diamond", map[string]string{"top.thrift": "include \"./l.thrift\"\ninclude \"./r.thrift\"\nstruct T { 1: optional l.L a; 2: optional r.R b }",
 		"l.thrift": "include \"./s.thrift\"\nstruct L { 1: optional s.S s }", "r.thrift": "include \"./s.thrift\"\nstruct R { 1: optional list<s.S> s }", "s.thrift": "struct S { 1: optional i32 v }"}, "top.thrift", "")
 	lay("sibling-dirs", map[string]string{"p/q.thrift": "include \"../r/s.thrift\"\ntypedef s.T QT\nconst s.T QC = {\"v\": 1}", "r/s.thrift": "struct T { 1: optional i32 v }"}, "p/q.thrift", "")
+	// the same kind of layouts through the command line without --thrift-root: the root is
+	// inferred; sibling directories whose names share a prefix, deeper and shallower includes
+	cli := func(name string, files map[string]string, root string) {
+		out = append(out, cell{Name: "cli_" + name, Class: "cli-layout:" + name, Benign: true, Files: files, Root: root, CLI: true})
+	}
+	cli("single", map[string]string{"idl/a.thrift": "struct A { 1: optional i32 v }"}, "idl/a.thrift")
+	cli("sibling-dirs", map[string]string{"idl/api/a.thrift": "include \"../common/b.thrift\"\nstruct A { 1: optional b.B b }", "idl/common/b.thrift": "struct B { 1: optional i32 v }"}, "idl/api/a.thrift")
+	for _, pair := range [][2]string{{"api", "api_v2"}, {"api_v2", "api"}, {"common", "common2"}, {"x", "xy"}, {"a.b", "a"}} {
+		cli("sibling-prefix-"+pair[0]+"-"+pair[1], map[string]string{"idl/" + pair[0] + "/a.thrift": "include \"../" + pair[1] + "/b.thrift\"\nstruct A { 1: optional b.B b }\nservice SA extends b.SB { void a() }",
+			"idl/" + pair[1] + "/b.thrift": "struct B { 1: optional i32 v }\nservice SB { void b() }"}, "idl/"+pair[0]+"/a.thrift")
+	}
+	cli("include-above", map[string]string{"idl/deep/er/a.thrift": "include \"../../top.thrift\"\nstruct A { 1: optional top.T t }", "idl/top.thrift": "struct T { 1: optional i32 v }"}, "idl/deep/er/a.thrift")
+	cli("include-below", map[string]string{"idl/a.thrift": "include \"./sub/dir/b.thrift\"\nstruct A { 1: optional b.B b }", "idl/sub/dir/b.thrift": "struct B { 1: optional i32 v }"}, "idl/a.thrift")
+	cli("three-dirs", map[string]string{"idl/p/a.thrift": "include \"../q/b.thrift\"\ninclude \"../qq/c.thrift\"\nstruct A { 1: optional b.B b; 2: optional c.C c }", "idl/q/b.thrift": "include \"../qq/c.thrift\"\nstruct B { 1: optional c.C c }", "idl/qq/c.thrift": "struct C { 1: optional i32 v }"}, "idl/p/a.thrift")
 	// inheritance and type use along include chains the root does not include directly
 	lay("service-chain-3", map[string]string{"api/users.thrift": "include \"../base/meta.thrift\"\nservice Users extends meta.Meta { void u() }",
 		"base/meta.thrift": "include \"./core/health.thrift\"\nservice Meta extends health.Health { void m() }", "base/core/health.thrift": "service Health { void h() }"}, "api/users.thrift", "")
@@ -389,6 +428,13 @@ func run(w *ev.W) {
 					gerr = fmt.Errorf("PANIC %v", r)
 				}
 			}()
+			if c.CLI {
+				cmd := exec.Command(w.Args["thriftrw"], "--out", filepath.Join(mod, c.Name), "--pkg-prefix", "c06mod/"+c.Name, "--no-version-check", filepath.Join(thrift, c.Root))
+				if out, err := cmd.CombinedOutput(); err != nil {
+					gerr = fmt.Errorf("thriftrw command failed: %v: %s", err, strings.TrimSpace(string(out)))
+				}
+				return
+			}
 			m, err := compile.Compile(filepath.Join(thrift, c.Root))
 			if err != nil {
 				gerr = err
